@@ -236,16 +236,18 @@ def run(ctx):
     wc = [c for c in astq.calls(ctp.node) if astq.call_text(c) == "_ssl_wrap_socket_and_match_hostname"]
     ctx.sites(R5, len(wc), 1, "proxy TLS wrap")
     for c in wc:
-        k = {x.arg: astq.text(x.value) for x in c.keywords}
-        ok = k.get("server_hostname") == "hostname" and k.get("assert_hostname") == "proxy_config.assert_hostname" \
-            and k.get("assert_fingerprint") == "proxy_config.assert_fingerprint" and k.get("ssl_context") == "ssl_context" and k.get("tls_in_tls") == "False"
-        ctx.ob(R5, ctp.qual, "proxy TLS is verified against the proxy's host with the proxy_config assertions and context", ok, str({x: k.get(x) for x in ("server_hostname", "assert_hostname", "assert_fingerprint", "ssl_context", "tls_in_tls")}), node=c)
-        srcs = astq.sources_of(ctp.node, ast.parse("ssl_context").body[0].value)
-        ctx.ob(R5, ctp.qual, "the proxy context is proxy_config.ssl_context", any("proxy_config.ssl_context" in astq.text(s) for s in srcs))
+        k = {x.arg: astq.itext(ctp.node, x.value) for x in c.keywords}
+        pcfg = "self.proxy_config"
+        ok = k.get("server_hostname") == "hostname" and pcfg in (k.get("assert_hostname") or "") and (k.get("assert_hostname") or "").endswith(".assert_hostname") \
+            and pcfg in (k.get("assert_fingerprint") or "") and (k.get("assert_fingerprint") or "").endswith(".assert_fingerprint") \
+            and pcfg in (k.get("ssl_context") or "") and (k.get("ssl_context") or "").endswith(".ssl_context") and k.get("tls_in_tls") == "False"
+        ctx.ob(R5, ctp.qual, "proxy TLS is verified against the proxy's host with the proxy_config assertions and context", ok, str({x: k.get(x) for x in ("server_hostname", "assert_hostname", "assert_fingerprint", "ssl_context", "tls_in_tls")})[:300], node=c)
     callers = [c for c in astq.calls(cf.node) if astq.call_text(c) == "self._connect_tls_proxy"]
     ctx.ob(R5, cf.qual, "the proxy handshake names the proxy's host (self.host of the proxied connection)", bool(callers) and astq.text(callers[0].args[0]) == "self.host")
     pv = [n for n in astq.walk_fn(ctp.node) if isinstance(n, ast.Assign) and astq.text(n.targets[0]) == "self.proxy_is_verified"]
-    ctx.ob(R5, ctp.qual, "proxy_is_verified is the proxy handshake's verdict", bool(pv) and astq.text(pv[0].value) == "sock_and_verified.is_verified")
+    ok = bool(pv) and isinstance(pv[0].value, ast.Attribute) and pv[0].value.attr == "is_verified" \
+        and any(isinstance(x, ast.Call) and astq.call_text(x) == "_ssl_wrap_socket_and_match_hostname" for x in astq.sources_of(ctp.node, pv[0].value.value))
+    ctx.ob(R5, ctp.qual, "proxy_is_verified is the proxy handshake's verdict", ok)
 
     # ------------------------------------------------------------------ R6 dial the proxy
     R6 = ctx.rule("C09-R6", "with a proxy an HTTPS pool dials the proxy: the connection is constructed with the proxy's host and port", "E6")
